@@ -1,4 +1,8 @@
 import GB.C10.Proofs
+import GB.C10.StatusJson
+import GB.C10.FwdRules
+import GB.C10.StreamWitness
+import GB.C09.Props
 import GB.Generated.Facts
 /-
   C10 — property theorems: gRPC outcomes map to the right HTTP status and a decodable error body.
@@ -65,6 +69,81 @@ theorem C10_transcoding_error (e : RawErr) (c : Nat) :
   cases hd : e.direct with
   | some st => simp [rawMessage_infix_convert]
   | none => simp [convert, RawErr.direct, explicitOf, rawMessage_infix_text]
+
+/-! ### which `HTTPStatus()` override wins, for arbitrarily nested error values -/
+
+/-- **Only the outermost value's own `HTTPStatus()` counts** (`err.(interface{ HTTPStatus() int })` is a type
+    assertion, not `errors.As`): an error has an explicit HTTP status exactly when it is itself an
+    `httperr.StatusError` or a type implementing both interfaces — whatever is nested inside. -/
+theorem C10_explicit_iff_outermost (e : RawErr) (h : Nat) :
+    explicitOf e = some h ↔ (∃ i, e = .http h i) ∨ (∃ st, e = .both h st) := by
+  cases e <;> simp [explicitOf]
+
+/-- The outer override wins over any inner one, and a `fmt.Errorf("%w")` (or any other wrapper without the method)
+    HIDES every override below it: the status then falls back to the canonical one of the gRPC code. -/
+theorem C10_explicit_nesting (h : Nat) (p : Bytes) (i : RawErr) :
+    explicitOf (.http h i) = some h ∧ explicitOf (.wrapf p i) = none ∧
+    (errorStatus (.http h i)).2 = h ∧
+    (errorStatus (.wrapf p i)).2 = canonicalHttp (convert (.wrapf p i)).code := by
+  refine ⟨rfl, rfl, ?_, ?_⟩
+  · rw [errorStatus_http]; rfl
+  · rw [errorStatus_http]; rfl
+
+/-- The gRPC code, in contrast, IS found through every wrapper (`errors.As`): it is the code of the first status
+    along the unwrap chain, Unknown if there is none; wrappers only change the message (to `err.Error()`). -/
+theorem C10_code_through_wrappers (e : RawErr) :
+    (convert e).code = (e.findStatus.map (·.code)).getD cUnknown ∧
+    (convert e).details = (e.findStatus.map (·.details)).getD [] ∧
+    (e.direct = none → (convert e).msg = e.text) := by
+  unfold convert
+  cases hd : e.direct with
+  | some st =>
+    have hf : e.findStatus = some st := by
+      cases e <;> simp_all [RawErr.direct, RawErr.findStatus]
+    simp [hf]
+  | none =>
+    cases hf : e.findStatus <;> simp
+
+/-- **Full characterisation of `errorStatus` on nested values**: the status comes from the first status in the
+    unwrap chain (message replaced by `err.Error()` unless the value is a status itself), the HTTP code is the
+    outermost value's own override if it has one, else the canonical code of that status' gRPC code. -/
+theorem C10_errorStatus_nested (e : RawErr) :
+    (errorStatus e).2 =
+      (match e with
+       | .http h _ => h
+       | .both h _ => h
+       | _ => canonicalHttp ((e.findStatus.map (·.code)).getD cUnknown)) := by
+  rw [errorStatus_http]
+  have hc := (C10_code_through_wrappers e).1
+  cases e <;> simp_all [wantStatus, explicitOf]
+
+/-- **The documented loss.** A `httperr.StatusError` (grpcbridge's own carrier of an explicit HTTP status) that is
+    returned by a request or response TRANSCODER's `Transcode` loses both its HTTP status and its gRPC code:
+    `wrapTranscodingError` checks `err.(grpcstatus)` by type assertion, `StatusError` has no `GRPCStatus()`, so the
+    error is replaced by `status.Error(defaultCode, err.Error())` — InvalidArgument ⇒ 400 for requests, Internal ⇒ 500
+    for responses — whatever `h` and the inner error were. The text survives. (From the router and from `Bind` the same
+    value keeps its override: `C10_explicit_nesting`.) -/
+theorem C10_transcoder_statuserror_loses_override (h : Nat) (i : RawErr) :
+    explicitOf (requestTranscodingError (.http h i)) = none ∧
+    (convert (requestTranscodingError (.http h i))).code = cInvalidArgument ∧
+    (errorStatus (requestTranscodingError (.http h i))).2 = 400 ∧
+    (errorStatus (responseTranscodingError (.http h i))).2 = 500 ∧
+    (convert (requestTranscodingError (.http h i))).msg = (RawErr.http h i).text := by
+  refine ⟨rfl, rfl, ?_, ?_, rfl⟩
+  · rw [errorStatus_http]; rfl
+  · rw [errorStatus_http]; rfl
+
+/-- …whereas an error type that implements `GRPCStatus()` AND `HTTPStatus()` itself passes a transcoder unchanged
+    and keeps its override. -/
+theorem C10_transcoder_both_keeps_override (h : Nat) (st : St) :
+    requestTranscodingError (.both h st) = .both h st ∧
+    (errorStatus (requestTranscodingError (.both h st))).2 = h := by
+  refine ⟨rfl, ?_⟩
+  rw [errorStatus_http]; rfl
+
+/-- witness: 413 Payload Too Large from a request transcoder is answered as 400 InvalidArgument -/
+example : (errorStatus (requestTranscodingError (.http 413 (.status ⟨8, [98, 105, 103], []⟩)))).2 = 400 ∧
+    (errorStatus (.http 413 (.status ⟨8, [98, 105, 103], []⟩))).2 = 413 := by decide
 
 /-! ### the decision tree of `writeError` -/
 
@@ -315,6 +394,55 @@ theorem C10_415 (sc : Scenario) (env : Env) (h1 : sc.inj ≠ .router) (h2 : sc.i
   simp [failResp, hw]
   decide
 
+/-! ### part of the transcoder law discharged with the C09 slice -/
+
+/-- **A Status body without details decodes back to the status** — the decode-back law that `C10_failure_body`
+    takes as a hypothesis, PROVED for the sub-case `details = []` from the C09 slice: `code` is an int32 field and
+    `message` a string field, whose JSON codecs round-trip by `C09_roundtrip` (for every message, incl. quotes,
+    control characters, non-ASCII: escaping is the tokenizer's business, `Tokenizer.roundtrip`). The body is
+    non-empty. Covers every error made inside grpcbridge (router, Bind, decode, deadline, EOF, …: none has details)
+    and every target status without details. With details the law stays a hypothesis (protojson's `Any` expansion). -/
+theorem C10_status_body_roundtrip_no_details (ops : GB.C09.FloatOps) (hl : GB.C09.FloatLaws ops) (tk : Tokenizer)
+    (st : St) (hd : st.details = []) (hc : st.code < 2 ^ 31) :
+    ∃ b, jsonStatusEnc ops tk st = .ok b ∧ jsonStatusDec ops tk b = some st ∧ b ≠ [] := by
+  obtain ⟨jc, hjc, gc, hdc, hrc⟩ := C09_roundtrip ops hl statusOpts .sing .int32 (.sing (some (.int st.code)))
+    trivial (by
+      show GB.C09.Typed .int32 (.int st.code)
+      simp only [GB.C09.Typed]
+      constructor <;> omega)
+  obtain ⟨jm, hjm, gm, hdm, hrm⟩ := C09_roundtrip ops hl statusOpts .sing .string (.sing (some (.str st.msg)))
+    trivial (by show GB.C09.Typed .string (.str st.msg); simp [GB.C09.Typed])
+  have htree : statusTree ops st = .ok (.obj [(keyCode, jc), (keyMessage, jm), (keyDetails, .arr [])]) := by
+    simp [statusTree, hjc, hjm, GB.C09.Res.bind]
+  refine ⟨tk.print (.obj [(keyCode, jc), (keyMessage, jm), (keyDetails, .arr [])]), ?_, ?_, tk.nonempty _⟩
+  · simp [jsonStatusEnc, htree]
+  · have h1 : objGet [(keyCode, jc), (keyMessage, jm), (keyDetails, GB.C09.J.arr [])] keyCode = some jc := by
+      simp [objGet, List.find?]
+    have h2 : objGet [(keyCode, jc), (keyMessage, jm), (keyDetails, GB.C09.J.arr [])] keyMessage = some jm := by
+      have : (keyCode == keyMessage) = false := by decide
+      simp [objGet, List.find?, this]
+    have h3 : objGet [(keyCode, jc), (keyMessage, jm), (keyDetails, GB.C09.J.arr [])] keyDetails = some (.arr []) := by
+      have a : (keyCode == keyDetails) = false := by decide
+      have b : (keyMessage == keyDetails) = false := by decide
+      simp [objGet, List.find?, a, b]
+    have hrc' : gc.read .int32 = .sing (some (.int st.code)) := by rw [hrc]; rfl
+    have hrm' : gm.read .string = .sing (some (.str st.msg)) := by rw [hrm]; rfl
+    cases st with
+    | mk code msg details =>
+      simp only at hd; subst hd
+      simp [jsonStatusDec, tk.roundtrip, statusOfTree, h1, h2, h3, hdc, hdm, hrc', hrm']
+
+/-- Consequently the hypothesis of `C10_failure_body` is met by the JSON transcoder on every status without details
+    (stated for the encoder/decoder pair above; `2^31` bounds gRPC codes by far). -/
+theorem C10_decode_law_no_details (ops : GB.C09.FloatOps) (hl : GB.C09.FloatLaws ops) (tk : Tokenizer)
+    (st : St) (b : Bytes) (hd : st.details = []) (hc : st.code < 2 ^ 31)
+    (henc : jsonStatusEnc ops tk st = .ok b) : jsonStatusDec ops tk b = some st ∧ b ≠ [] := by
+  obtain ⟨b', h1, h2, h3⟩ := C10_status_body_roundtrip_no_details ops hl tk st hd hc
+  rw [h1] at henc
+  injection henc with henc
+  subst henc
+  exact ⟨h2, h3⟩
+
 /-! ### a unary target that answers first and fails afterwards -/
 
 /-- **Message first, then failure (unary).** If the target sends its response message and then ends the call with
@@ -359,6 +487,137 @@ theorem C10_unary_target_failure_is_failure (sc : Scenario) (env : Env) (t : Res
     · exact C10_unary_message_then_failure sc env t h1 hi
   rw [h]
   exact ⟨(failResp_fields _ _ _ _ _).1, (failResp_fields _ _ _ _ _).2.1⟩
+
+/-! ### httpStream as an LTS: all interleavings Forward's call rules permit (GB/C10/Stream.lean) -/
+
+/-- **Forward's call rules, imported from the Forward LTS of C01/C02.** In every run of `ProxyForwarder.Forward` for a
+    method that is not client-streaming — any client, any target, any schedule, any faults — the events on the
+    incoming stream form a word the discipline automaton accepts: `Recv` once and first; `SetHeader / SetTrailer /
+    Send` never while a `Send` is pending (single owner: they all come from the response pump) and only after `Recv`
+    returned; Forward returns only with no call pending and calls nothing afterwards. -/
+theorem C10_forward_call_rules {M E : Type} [DecidableEq M] [DecidableEq E] (p : GB.Fwd.Params) (hcs : p.cs = false)
+    (tr : List (GB.Fwd.Label M E)) (s : GB.Fwd.State M E) (h : GB.Fwd.Run p tr s) :
+    HS.drun HS.dinit (tr.filterMap HS.kindOf) = some (HS.discOf s) :=
+  HS.fwd_run_accepts p hcs tr s h
+
+/-- …in particular (from `C02_cleanup`: both pumps have exited when Forward returns) no `Send` is pending and `Recv`
+    has returned when the handler gets control back — its `writeError` is ordered after every completed call. -/
+theorem C10_forward_returns_idle {M E : Type} [DecidableEq M] [DecidableEq E] (p : GB.Fwd.Params)
+    (s : GB.Fwd.State M E) (hr : GB.Fwd.Reachable p s) (hd : GB.Fwd.isDone s = true) :
+    (HS.discOf s).pendingSend = false ∧ (HS.discOf s).recv = .returned :=
+  HS.fwd_returned_idle p s hr hd
+
+/-- The httpStream LTS is driven exactly under these rules: each of its call/return steps is a step of the
+    discipline (its runs are permitted interleavings), and whenever the rules allow Forward a call or its return,
+    the LTS has that step (it excludes nothing Forward may do), in states without an abandoned `Send`. -/
+theorem C10_stream_lts_under_rules (cfg : HS.Cfg) (s : HS.St) :
+    (∀ s' ev, HS.step cfg s ev = some s' →
+      (match HS.kindEv ev with
+       | some k => HS.dstep (HS.discOfHS s) k = some (HS.discOfHS s')
+       | none => HS.discOfHS s' = HS.discOfHS s)) ∧
+    (HS.Reachable cfg s → s.abandoned = false →
+      (∀ d' md, HS.dstep (HS.discOfHS s) .setHeader = some d' → (HS.step cfg s (.setHeader md)).isSome = true) ∧
+      (∀ d' md, HS.dstep (HS.discOfHS s) .setTrailer = some d' → (HS.step cfg s (.setTrailer md)).isSome = true) ∧
+      (∀ d' x, HS.dstep (HS.discOfHS s) .sendCall = some d' → (HS.step cfg s (.sendCall x)).isSome = true) ∧
+      (∀ d' e, HS.dstep (HS.discOfHS s) .fwdRet = some d' → (HS.step cfg s (.fwdRet e)).isSome = true)) := by
+  refine ⟨fun s' ev hs => HS.hs_sim cfg s s' ev hs, fun hr ha => ?_⟩
+  obtain ⟨_, h2, h3, h4, h5⟩ := HS.hs_offers cfg s hr ha
+  exact ⟨h2, h3, h4, h5⟩
+
+/-- **Confluence: the rendered response is the sequential one.** In every reachable state of the LTS in which the
+    handler has returned and no `Send` helper was abandoned — whatever the interleaving of helper steps, returns and
+    handler steps — the ResponseWriter holds exactly what the completed response-side calls, applied one after the
+    other in call order, followed by the handler's `writeError` on Forward's return value, produce. -/
+theorem C10_stream_final_is_sequential (cfg : HS.Cfg) (s : HS.St) (h : HS.Reachable cfg s)
+    (ha : s.abandoned = false) (hf : s.finished = true) :
+    ∃ ret, s.fwd = some ret ∧ s.core = HS.seqCore cfg s.log ret :=
+  HS.final_core cfg s h ha hf
+
+/-- **The LTS refines `serve`.** For the calls Forward makes for the scenario's scripted target
+    (`callsUnary/callsStream`, `retUnary/retStream`): every run of the httpStream LTS that the call rules permit and in
+    which no `Send` was abandoned ends, once the handler returned, in the response the `serve` model computes — status,
+    Content-Type, X-Content-Type-Options, headers, trailers and body (`item` = the bytes of one streamed value). -/
+theorem C10_stream_lts_refines_serve (sc : Scenario) (env : Env) (t : RespTranscoder) (sse : Bool) (item : Bytes) :
+    (∀ s, HS.Reachable (HS.cfgUnary sc t) s → s.abandoned = false → s.finished = true →
+      s.log = HS.callsUnary sc env → s.fwd = some (HS.retUnary sc env) →
+      HS.Matches (serveUnary sc env t) s.core.observe item) ∧
+    (∀ s, HS.Reachable (HS.cfgStream sc t) s → s.abandoned = false → s.finished = true →
+      s.log = HS.callsStream sc env item → s.fwd = some (HS.retStream sc env) →
+      HS.Matches (serveStream sc env t sse) s.core.observe item) := by
+  constructor
+  · intro s hr ha hf hl hret
+    obtain ⟨ret, h1, h2⟩ := HS.final_core _ s hr ha hf
+    rw [hret] at h1; injection h1 with h1; subst h1
+    rw [h2, hl]
+    exact HS.unary_seq_is_serve sc env t item
+  · intro s hr ha hf hl hret
+    obtain ⟨ret, h1, h2⟩ := HS.final_core _ s hr ha hf
+    rw [hret] at h1; injection h1 with h1; subst h1
+    rw [h2, hl]
+    exact HS.stream_seq_is_serve sc env t sse item
+
+/-- **The status line is decided exactly once, headers count only before the first byte.** What the first
+    `WriteHeader`/`Write` committed — status, header snapshot, Content-Type — is what the client sees after every later
+    step, in EVERY run (`SetHeader` after the first byte, a second `WriteHeader` by `writeError`, … change nothing). -/
+theorem C10_stream_status_once (cfg : HS.Cfg) (s s' : HS.St) (l : HS.Ev) (hs : HS.step cfg s l = some s')
+    (w : HS.Wire) (hw : s.core.wire = some w) :
+    s'.core.wire = some w ∧ s'.core.observe.status = w.status ∧ s'.core.observe.hdrs = w.hdrs ∧
+    s'.core.observe.ct = w.ct := by
+  have h := HS.wire_stable cfg s s' l hs w hw
+  simp [h, HS.Core.observe]
+
+/-- **No error body after a success byte.** If a `Send` has put bytes on the wire, the handler's error path renders
+    nothing: the final state is exactly the calls' — for every permitted run without an abandoned `Send`. -/
+theorem C10_stream_no_error_after_success (cfg : HS.Cfg) (s : HS.St) (h : HS.Reachable cfg s)
+    (ha : s.abandoned = false) (hf : s.finished = true)
+    (hw : (s.log.foldl (HS.Core.apply cfg) {}).wire.isSome = true) :
+    s.core = s.log.foldl (HS.Core.apply cfg) {} := by
+  obtain ⟨ret, _, h2⟩ := HS.final_core cfg s h ha hf
+  rw [h2]
+  cases ret with
+  | none => rfl
+  | some e => simp [HS.seqCore, hw, writeError, HS.Core.render]
+
+/-- **Trailer placement.** `SetTrailer` before the first `Send` adds plain headers; afterwards it only adds
+    `Trailer:`-prefixed keys (HTTP trailers) and leaves the headers alone. `SetHeader` after a `Send` is ignored. -/
+theorem C10_stream_trailer_placement (c : HS.Core) (md : MD) :
+    (c.sent = false → (c.setTrailer md).hdrs = appendHeaders c.hdrs md ∧ (c.setTrailer md).trls = c.trls) ∧
+    (c.sent = true → (c.setTrailer md).hdrs = c.hdrs ∧ (c.setTrailer md).trls = appendHeaders c.trls md ∧
+      c.setHeader md = c) := by
+  constructor <;> intro h <;> simp [HS.Core.setTrailer, HS.Core.setHeader, h]
+
+/-- **The excluded class is really excluded (known finding C18-D21).** With a `Send` that `withCtx` abandoned
+    (`sendRet true`: the context ended, the helper is still before its write) the guarantee FAILS: there is a run,
+    permitted by every call rule, in which the handler's `writeError` decides on an unwritten response, the
+    abandoned helper then writes the success bytes (status 200), and the error body is appended after them — two
+    writers, a 200 carrying the success bytes followed by an error document, where the sequential reading
+    (DeadlineExceeded before any byte) is 504 with the Status body only. Kernel-checked on the concrete run
+    `HS.d21Run`; the same call with `Send` returning after its helper (`HS.d21Orderly`) is a clean 200. -/
+theorem C10_abandoned_send_breaks_single_writer :
+    ∃ s, HS.Reachable HS.d21Cfg s ∧ s.finished = true ∧ s.abandoned = true ∧
+      s.core.observe.status = 200 ∧ s.core.observe.body = [[79, 75], [69]] ∧
+      s.fwd = some (some HS.d21Err) ∧
+      (HS.seqCore HS.d21Cfg s.log (some HS.d21Err)).observe.status = 504 ∧
+      (HS.seqCore HS.d21Cfg s.log (some HS.d21Err)).observe.body = [[69]] ∧
+      s.core ≠ HS.seqCore HS.d21Cfg s.log (some HS.d21Err) := by
+  have hrun : ∃ s, GB.LTS.run (HS.step HS.d21Cfg) HS.init HS.d21Run = some s ∧ s.finished = true ∧ s.abandoned = true ∧
+      s.core.observe.status = 200 ∧ s.core.observe.body = [[79, 75], [69]] ∧
+      s.fwd = some (some HS.d21Err) ∧
+      (HS.seqCore HS.d21Cfg s.log (some HS.d21Err)).observe.status = 504 ∧
+      (HS.seqCore HS.d21Cfg s.log (some HS.d21Err)).observe.body = [[69]] ∧
+      s.core ≠ HS.seqCore HS.d21Cfg s.log (some HS.d21Err) := by
+    refine ⟨_, rfl, ?_⟩
+    decide
+  obtain ⟨s, hr, rest⟩ := hrun
+  exact ⟨s, GB.LTS.run_reachable _ _ _ _ GB.LTS.Reachable.init hr, rest⟩
+
+/-- non-vacuity of the positive theorems: the orderly run of the same call ends finished, not abandoned, as a 200
+    with exactly the response bytes -/
+example : ∃ s, GB.LTS.run (HS.step HS.d21Cfg) HS.init HS.d21Orderly = some s ∧ s.finished = true ∧
+    s.abandoned = false ∧ s.core.observe.status = 200 ∧ s.core.observe.body = [[79, 75]] ∧
+    s.core = HS.seqCore HS.d21Cfg s.log none := by
+  refine ⟨_, rfl, ?_⟩
+  decide
 
 /-! ### headers and trailers -/
 
